@@ -9,7 +9,7 @@ values, so each has a finite decision table:
     overlapping) to a result descriptor EMPTY / ALIAS(side) / COPY(side) / CONCAT(a, b) / LOOP.
 Nothing is executed; a kernel rewritten into another algorithm is reported UNDECIDED.
 """
-from .cyfront import tname, children, walk
+from .cyfront import tname, tstr, children, walk
 
 
 class Undecided(Exception):
@@ -57,7 +57,7 @@ class Kernel:
     def __init__(self, cyfunc):
         self.f = cyfunc
         self.name = cyfunc.name
-        args = [a for a in cyfunc.node.args if str(a.type).endswith("[:]")]
+        args = [a for a in cyfunc.node.args if tstr(a.type).endswith("[:]")]
         if len(args) != 2:
             raise Undecided("kernel does not take two memoryviews")
         self.arr = {"L": args[0].name, "R": args[1].name}
@@ -84,7 +84,7 @@ class Kernel:
                 if tname(ix) == "NameNode":
                     self.val.setdefault(side, lhs)
                     self.ptr.setdefault(side, ix.name)
-            if str(n.lhs.type).endswith("[:]") and tname(r) == "NameNode":
+            if tstr(n.lhs.type).endswith("[:]") and tname(r) == "NameNode":
                 self.result_view = lhs
                 self.result_obj = r.name
         # result_len: the counter used to index result_view in stores
